@@ -515,7 +515,9 @@ class Gen:
             # an ordering guard on an enum-typed variable casts it to Float (known finding known_enum_guard)
             self.noenum += op in (0, 1, 4, 5)
             try:
-                a = self.expr(ta, d - 1)
+                # == / != with a compound Bool expression on the left registers an expression-target guard that
+                # mistypes equal expressions in the branch (known finding known_expr_guard_cast): atomic left operand
+                a = self.expr(ta, 0 if (ta == BOOL and op in (2, 3)) else d - 1)
             finally:
                 self.noenum -= op in (0, 1, 4, 5)
             b = self.expr(tb, d - 1)
